@@ -136,61 +136,55 @@ theorem delete_residual_around (S : Schema) (hS : S ∈ familySchemas) (tr tr1 :
     hattrs f t hft h hres
 
 /-- `PM.C04.insertInline_residual` with its schema guards discharged for the bundled schema family -/
-theorem insertInline_residual (S : Schema) (hS : S ∈ domFamilySchemas) (tr tr1 : Tr)
+theorem insertInline_residual (S : Schema) (hS : S ∈ familySchemas) (tr tr1 : Tr)
     (hlen : tr.steps.length = tr.docs.length) (hv : C01.Valid S tr.doc) (hattrs : S.nodeAttrsOK tr.doc = true)
     (f t : Nat) (sl : Slice) (hsl : sl.inlineLeaves S = true) (hslv : sl.closedValid S = true)
     (h : tr.runOp S (.replace f t sl) = some tr1) (hres : DeleteResidual S tr tr1) :
     OpResidual S (.replace f t sl) tr tr1 :=
-  PM.C04.insertInline_residual S (family_det _ (domFamily_sub _ hS)) (family_fillersOK _ (domFamily_sub _ hS))
-    (family_wrapOK _ (domFamily_sub _ hS)) (family_labelsOK _ (domFamily_sub _ hS))
-    (family_leafOk _ (domFamily_sub _ hS)) (family_textStableC _ (domFamily_sub _ hS))
-    (family_closable _ (domFamily_sub _ hS)) tr tr1 hlen hv hattrs f t sl hsl hslv h hres
+  PM.C04.insertInline_residual S (family_det _ hS) (family_fillersOK _ hS) (family_wrapOK _ hS)
+    (family_labelsOK _ hS) (family_leafOk _ hS) (family_textStableC _ hS) (family_closable _ hS) tr tr1 hlen hv
+    hattrs f t sl hsl hslv h hres
 
 /-- `PM.C04.insertInline_residual_around` with its schema guards discharged for the bundled schema family -/
-theorem insertInline_residual_around (S : Schema) (hS : S ∈ domFamilySchemas) (tr tr1 : Tr)
+theorem insertInline_residual_around (S : Schema) (hS : S ∈ familySchemas) (tr tr1 : Tr)
     (hlen : tr.steps.length = tr.docs.length) (hv : C01.Valid S tr.doc) (hattrs : S.nodeAttrsOK tr.doc = true)
     (f t : Nat) (hft : f ≤ t) (sl : Slice) (hsl : sl.inlineLeaves S = true) (hslv : sl.closedValid S = true)
     (h : tr.runOp S (.replace f t sl) = some tr1) (hres : InsertInlineResidualAround S tr tr1) :
     OpResidual S (.replace f t sl) tr tr1 :=
-  PM.C04.insertInline_residual_around S (family_det _ (domFamily_sub _ hS))
-    (family_fillersOK _ (domFamily_sub _ hS)) (family_wrapOK _ (domFamily_sub _ hS))
-    (family_labelsOK _ (domFamily_sub _ hS)) (family_leafOk _ (domFamily_sub _ hS))
-    (family_textStableC _ (domFamily_sub _ hS)) (family_closable _ (domFamily_sub _ hS)) tr tr1 hlen hv hattrs f
-    t hft sl hsl hslv h hres
+  PM.C04.insertInline_residual_around S (family_det _ hS) (family_fillersOK _ hS) (family_wrapOK _ hS)
+    (family_labelsOK _ hS) (family_leafOk _ hS) (family_textStableC _ hS) (family_closable _ hS) tr tr1 hlen hv
+    hattrs f t hft sl hsl hslv h hres
 
 /-- `PM.C04.replace_residual_of_inv` with its schema guards discharged for the bundled schema family -/
-theorem replace_residual_of_inv (S : Schema) (hS : S ∈ domFamilySchemas) (tr tr1 : Tr)
+theorem replace_residual_of_inv (S : Schema) (hS : S ∈ familySchemas) (tr tr1 : Tr)
     (hlen : tr.steps.length = tr.docs.length) (hattrs : S.nodeAttrsOK tr.doc = true) (f t : Nat) (sl : Slice)
     (hslv : openValid S sl.openStart sl.openEnd sl.content = true)
     (hend : fitEndInv S tr.doc f t sl ≠ some false) (h : tr.runOp S (.replace f t sl) = some tr1)
     (hres : DeleteResidual S tr tr1) :
     OpResidual S (.replace f t sl) tr tr1 :=
-  PM.C04.replace_residual_of_inv S (family_det _ (domFamily_sub _ hS)) (family_fillersOK _ (domFamily_sub _ hS))
-    (family_leafOk _ (domFamily_sub _ hS)) (family_textStableC _ (domFamily_sub _ hS))
-    (family_closable _ (domFamily_sub _ hS)) tr tr1 hlen hattrs f t sl hslv hend h hres
+  PM.C04.replace_residual_of_inv S (family_det _ hS) (family_fillersOK _ hS) (family_leafOk _ hS)
+    (family_textStableC _ hS) (family_closable _ hS) tr tr1 hlen hattrs f t sl hslv hend h hres
 
 /-- `PM.C04.replace_residual` with its schema guards discharged for the bundled schema family -/
-theorem replace_residual (S : Schema) (hS : S ∈ domFamilySchemas) (tr tr1 : Tr)
+theorem replace_residual (S : Schema) (hS : S ∈ familySchemas) (tr tr1 : Tr)
     (hlen : tr.steps.length = tr.docs.length) (hv : C01.Valid S tr.doc) (hattrs : S.nodeAttrsOK tr.doc = true)
     (f t : Nat) (sl : Slice) (hloose : sl.looseValid S = true) (hrun : unplacedWfRun S tr.doc f t sl = true)
     (h : tr.runOp S (.replace f t sl) = some tr1) (hres : DeleteResidual S tr tr1) :
     OpResidual S (.replace f t sl) tr tr1 :=
-  PM.C04.replace_residual S (family_det _ (domFamily_sub _ hS)) (family_fillersOK _ (domFamily_sub _ hS))
-    (family_wrapOK _ (domFamily_sub _ hS)) (family_labelsOK _ (domFamily_sub _ hS))
-    (family_leafOk _ (domFamily_sub _ hS)) (family_textStableC _ (domFamily_sub _ hS))
-    (family_closable _ (domFamily_sub _ hS)) tr tr1 hlen hv hattrs f t sl hloose hrun h hres
+  PM.C04.replace_residual S (family_det _ hS) (family_fillersOK _ hS) (family_wrapOK _ hS)
+    (family_labelsOK _ hS) (family_leafOk _ hS) (family_textStableC _ hS) (family_closable _ hS) tr tr1 hlen hv
+    hattrs f t sl hloose hrun h hres
 
 /-- `PM.C04.replace_residual_cut` with its schema guards discharged for the bundled schema family -/
-theorem replace_residual_cut (S : Schema) (hS : S ∈ domFamilySchemas) (tr tr1 : Tr)
+theorem replace_residual_cut (S : Schema) (hS : S ∈ familySchemas) (tr tr1 : Tr)
     (hlen : tr.steps.length = tr.docs.length) (hv : C01.Valid S tr.doc) (hattrs : S.nodeAttrsOK tr.doc = true)
     (f t : Nat) (src : Node) (a b : Nat) (sl : Slice) (hsrc : C01.Valid S src) (hcut : src.slice a b = .ok sl)
     (hrun : unplacedWfRun S tr.doc f t sl = true) (h : tr.runOp S (.replace f t sl) = some tr1)
     (hres : DeleteResidual S tr tr1) :
     OpResidual S (.replace f t sl) tr tr1 :=
-  PM.C04.replace_residual_cut S (family_det _ (domFamily_sub _ hS)) (family_fillersOK _ (domFamily_sub _ hS))
-    (family_wrapOK _ (domFamily_sub _ hS)) (family_labelsOK _ (domFamily_sub _ hS))
-    (family_leafOk _ (domFamily_sub _ hS)) (family_textStableC _ (domFamily_sub _ hS))
-    (family_closable _ (domFamily_sub _ hS)) tr tr1 hlen hv hattrs f t src a b sl hsrc hcut hrun h hres
+  PM.C04.replace_residual_cut S (family_det _ hS) (family_fillersOK _ hS) (family_wrapOK _ hS)
+    (family_labelsOK _ hS) (family_leafOk _ hS) (family_textStableC _ hS) (family_closable _ hS) tr tr1 hlen hv
+    hattrs f t src a b sl hsrc hcut hrun h hres
 
 /-- `PM.C04.replaceOp_residual` with its schema guards discharged for the bundled schema family -/
 theorem replaceOp_residual (S : Schema) (hS : S ∈ domFamilySchemas) (tr tr1 : Tr)
